@@ -28,6 +28,8 @@ use std::sync::{Arc, Mutex};
 pub use blob_column_factory::*;
 use bytes::Bytes;
 pub use char_column_factory::*;
+#[cfg(feature = "verif")]
+pub use char_column_builder::CharColumnBuilder;
 pub use column_builder::*;
 pub use column_iterator::*;
 pub use concrete_column_iterator::*;
